@@ -4,6 +4,7 @@ import (
 	"go/token"
 	"go/types"
 	"sort"
+	"strings"
 
 	"golang.org/x/tools/go/ssa"
 
@@ -96,6 +97,29 @@ func (e *Effects) Writes() []Write {
 						org := cal
 						if o := cal.Origin(); o != nil {
 							org = o // instances of generic types (atomic.Pointer[T]) carry no package and no receiver of their own
+						}
+						// mutating methods of standard-library objects that are handed around by pointer: extending a
+						// certificate pool, setting a big integer, writing into a buffer are writes to the receiver
+						if pk := org.Package(); pk != nil && org.Signature.Recv() != nil {
+							mut := false
+							switch pk.Pkg.Path() {
+							case "crypto/x509":
+								switch org.Name() {
+								case "AddCert", "AppendCertsFromPEM", "AddCertWithConstraint":
+									mut = true
+								}
+							case "math/big":
+								mut = strings.HasPrefix(org.Name(), "Set") || org.Name() == "Add" || org.Name() == "Sub" || org.Name() == "Mul" || org.Name() == "Lsh" || org.Name() == "Rsh"
+							case "bytes", "strings":
+								if _, isPtr := org.Signature.Recv().Type().(*types.Pointer); isPtr {
+									mut = strings.HasPrefix(org.Name(), "Write") || org.Name() == "Reset" || org.Name() == "Truncate" || org.Name() == "Grow" || org.Name() == "ReadFrom"
+								}
+							}
+							if mut {
+								w := Write{Instr: in, Fn: f, Addr: in.Call.Args[0], What: "a " + pk.Pkg.Name() + " object (" + org.Name() + ")"}
+								w.Roots = e.provenance(baseOf(in.Call.Args[0]), f, 0, map[ssa.Value]bool{})
+								out = append(out, w)
+							}
 						}
 						if pk := org.Package(); pk != nil && org.Signature.Recv() != nil && (pk.Pkg.Path() == "sync" || pk.Pkg.Path() == "sync/atomic") {
 							switch org.Name() {
